@@ -116,13 +116,14 @@ type ThreadInfo struct {
 
 // Config of one execution.
 type Config struct {
-	Prefix      []int
-	MaxSteps    int
-	Verbose     bool // record a human-readable trace
-	Horizon     time.Duration
-	PreemptCost bool // true: free choice at blocking points (preemption bounding)
-	SelectCost  bool // true: a non-first ready case of the same thread costs one deviation
-	Race        bool // keep vector clocks and check goat's field/map accesses for happens-before races
+	Prefix       []int
+	MaxSteps     int
+	Verbose      bool // record a human-readable trace
+	Horizon      time.Duration
+	PreemptCost  bool // true: free choice at blocking points (preemption bounding)
+	SelectCost   bool // true: a non-first ready case of the same thread costs one deviation
+	Race         bool // keep vector clocks and check goat's field/map accesses for happens-before races
+	UnlockPoints bool // a scheduling point right after every Mutex.Unlock / RWMutex.Unlock (finer preemption granularity)
 }
 
 // Result of one execution.
